@@ -22,7 +22,7 @@ A == Line.arg
 TrackedRun == IOEnv.TRACKED = "1"
 
 \* the instrumentation-only fields of the specification's observables
-LifeOnly == IF TrackedRun THEN {} ELSE {"live", "life"}
+LifeOnly == IF TrackedRun THEN {} ELSE {"live", "life", "hl"}
 
 SubRec(e, o) == \A f \in (DOMAIN e) \ LifeOnly : f \in DOMAIN o /\ o[f] = e[f]
 
@@ -48,17 +48,20 @@ TInit == Init /\ l = 1
 
 Dispatch ==
   \/ Line.a = "DefaultCtor" /\ DefaultCtor(A.d)
-  \/ Line.a = "ValueCtor" /\ ValueCtor(A.d, A.v)
+  \/ Line.a = "ValueCtor" /\ ValueCtor(A.d, A.v, A.t)
+  \/ Line.a = "MakeOptional" /\ MakeOptional(A.d, A.v, A.t)
+  \/ Line.a = "Poison" /\ Poison(A.d)
+  \/ Line.a = "AnyPoison" /\ AnyPoison(A.d)
   \/ Line.a = "CopyCtor" /\ CopyCtor(A.d, A.s)
   \/ Line.a = "MoveCtor" /\ MoveCtor(A.d, A.s)
   \/ Line.a = "ConvCopyCtor" /\ ConvCopyCtor(A.d, A.s)
   \/ Line.a = "ConvMoveCtor" /\ ConvMoveCtor(A.d, A.s)
-  \/ Line.a = "AssignValue" /\ AssignValue(A.d, A.v)
+  \/ Line.a = "AssignValue" /\ AssignValue(A.d, A.v, A.t)
   \/ Line.a = "CopyAssign" /\ CopyAssign(A.d, A.s)
   \/ Line.a = "MoveAssign" /\ MoveAssign(A.d, A.s)
   \/ Line.a = "ConvCopyAssign" /\ ConvCopyAssign(A.d, A.s)
   \/ Line.a = "ConvMoveAssign" /\ ConvMoveAssign(A.d, A.s)
-  \/ Line.a = "Emplace" /\ Emplace(A.d, A.v)
+  \/ Line.a = "Emplace" /\ Emplace(A.d, A.v, A.t)
   \/ Line.a = "ResetValue" /\ ResetValue(A.d)
   \/ Line.a = "Destroy" /\ Destroy(A.d)
   \/ Line.a = "Mutate" /\ Mutate(A.d, A.v)
@@ -68,10 +71,10 @@ Dispatch ==
   \/ Line.a = "Layout" /\ Layout
   \/ Line.a = "PackedUse" /\ PackedUse(A.v)
   \/ Line.a = "AnyDefaultCtor" /\ AnyDefaultCtor(A.d)
-  \/ Line.a = "AnyValueCtor" /\ AnyValueCtor(A.d, A.ty, A.v)
+  \/ Line.a = "AnyValueCtor" /\ AnyValueCtor(A.d, A.ty, A.v, A.t)
   \/ Line.a = "AnyCopyCtor" /\ AnyCopyCtor(A.d, A.s)
   \/ Line.a = "AnyMoveCtor" /\ AnyMoveCtor(A.d, A.s)
-  \/ Line.a = "AnyAssignValue" /\ AnyAssignValue(A.d, A.ty, A.v)
+  \/ Line.a = "AnyAssignValue" /\ AnyAssignValue(A.d, A.ty, A.v, A.t)
   \/ Line.a = "AnyCopyAssign" /\ AnyCopyAssign(A.d, A.s)
   \/ Line.a = "AnyMoveAssign" /\ AnyMoveAssign(A.d, A.s)
   \/ Line.a = "AnyDestroy" /\ AnyDestroy(A.d)
